@@ -37,3 +37,17 @@ fn d15_module_export() {
 fn d15_component_export() {
     run(r#"(component (component $c (import "f" (func))) (export "c" (component $c)))"#);
 }
+
+// D18: world-level function import taking borrow<r> of an imported resource
+#[test]
+fn d18_borrow_param_top_level() {
+    run(r#"(component
+      (import "r" (type $r (sub resource)))
+      (import "f" (func (param "x" (borrow $r)))))"#);
+}
+#[test]
+fn d18_own_param_top_level() {
+    run(r#"(component
+      (import "r" (type $r (sub resource)))
+      (import "f" (func (param "x" (own $r)))))"#);
+}
